@@ -5,6 +5,7 @@ import (
 	"go/token"
 	"go/types"
 	"math/big"
+	"sort"
 	"strings"
 
 	"golang.org/x/tools/go/ssa"
@@ -247,7 +248,35 @@ func (i *interpreter) rangeIterX(x value, t types.Type) iter {
 		}
 		return &sliceIter{keys: keys, vals: vals}
 	case *docMap:
-		panic(unsupported("range over a symbolic document map"))
+		// the members of a symbolic object: every key the program has asked about so far (in
+		// canonical order) and the E extra members, each present or not (a fork per candidate);
+		// keys nobody has named are represented by the extras
+		x := x.(*docMap)
+		if x.n.base != nil || x.n.wrapOf != nil {
+			panic(unsupported("range over a renamed view of a symbolic document"))
+		}
+		var cand []string
+		for k := range x.n.kids {
+			if !strings.HasPrefix(k, "+") {
+				cand = append(cand, k)
+			}
+		}
+		sort.Strings(cand)
+		for k := 0; k < i.x.docExtra(); k++ {
+			cand = append(cand, fmt.Sprintf("+%d", k))
+		}
+		var keys, vals []value
+		for _, k := range cand {
+			if x.deleted[k] {
+				continue
+			}
+			c := x.n.child(k)
+			if i.x.decide(symNot(c.kindIs(kAbsent))) {
+				keys = append(keys, k)
+				vals = append(vals, docVal{c})
+			}
+		}
+		return &sliceIter{keys: keys, vals: vals}
 	}
 	return rangeIter(x, t)
 }
